@@ -78,7 +78,7 @@ class C20(Prop):
             "and a digit run above i32::MAX; several paragraphs in any order, duplicates, foreign and role-confusing fields, comments, odd colon "
             "spacing / indentation / blank lines, missing final newline); typed-doc-malformed: every mandatory field of every role missing, an "
             "invalid value in every fallible field, wrong paragraph structure (no / several sources, neither kind, extra paragraphs), bad lines, "
-            "white-space-only continuation lines, '#' words in lists, Format-gate prefixes, CR line ends, wrong-case keys, near-empty texts; "
+            "white-space-only or comment continuation lines after the last line of a value and between two of its lines, '#' words in lists, Format-gate prefixes, CR line ends, wrong-case keys, near-empty texts; "
             "typed-doc-small: EVERY arrangement of up to 3 (thorough 4) paragraphs over the kind's roles plus a paragraph of neither role, every "
             "presence pattern of the first 5 (thorough 9) optional fields of every struct; non-trivial = accepted with an optional field or "
             "several paragraphs, or rejected for a structural / field reason")
